@@ -491,7 +491,7 @@ class DistanceMultiPart:
     returns = Int
 
 
-@contract(f"{FILE}::_reduce_parts_to_location", props=["C04", "C05", "C06"])
+@contract(f"{FILE}::_reduce_parts_to_location", props=["C04", "C05", "C06", "C03", "C07"])
 class ReducePartsToLocation:
     """parts of one location (<= 3) reduced to a span: the hull, or for an origin-bridging location the two-part
     span [min start of the pre-origin parts, wrap) + [0, max end of the post-origin parts)"""
